@@ -118,6 +118,8 @@ class Path:
             other = False      # already scheduled by the path that created the prefix
         else:
             d = feas[0]        # prefer True when feasible
+            if _PREFER[-1] is False and feas[1]:
+                d = False      # truthiness of a number: the generic (non-zero) outcome first, the edge `== 0` afterwards
             other = feas[0] and feas[1]
         self.decisions.append(d)
         self.conds.append((cond, d))
@@ -128,6 +130,21 @@ class Path:
 
 
 _PATH_STACK = [None]
+_PREFER = [None]
+
+
+class prefer:
+    """with prefer(False): the next fresh decision takes its False outcome first (both are still explored)"""
+
+    def __init__(self, value):
+        self.value = value
+
+    def __enter__(self):
+        _PREFER.append(self.value)
+
+    def __exit__(self, *exc):
+        _PREFER.pop()
+        return False
 
 
 def current_path():
@@ -370,7 +387,8 @@ class Sym:
         return hash(self.e)
 
     def __bool__(self):
-        return not self._cmp("eq", self.e, self.const(0))
+        with prefer(False):
+            return not self._cmp("eq", self.e, self.const(0))
 
     def __repr__(self):
         return "%s(%s)" % (type(self).__name__, self.e)
